@@ -5,6 +5,8 @@
 //!   flag   - the callback calls Context::cancel() during its k-th invocation and returns true
 //!   pre    - Context::cancel() before the operation starts
 //!   thread - Context::cancel() from another thread after delay_us microseconds
+//!   prep:"sign"  - the asset is first signed with a plain context (no callback); the operation runs on the result
+//!   serve:{url,file} - the context gets a resolver that answers `url` with the fixture `file` (404 otherwise)
 //! out: {r:"ok"|"err", kind, trace:[[phase,step,total,flag_seen]..], state, failure:[codes], stage}
 use std::{
     io::Cursor,
@@ -24,9 +26,17 @@ struct Shared {
 
 fn make_context(case: &Value, sh: &Shared, with_signer: bool) -> Arc<Context> {
     let extra = case.get("settings").filter(|s| !s.is_null()).map(|s| s.to_string());
-    let mut ctx = e2e::context(extra.as_deref());
+    let mut ctx = e2e::context_merged(extra.as_deref());
     if with_signer {
         ctx = ctx.with_signer(e2e::signer(case["alg"].as_str().unwrap_or("ed25519")));
+    }
+    if case["serve"].is_object() {
+        let mut r = crate::c28::RecordingResolver::default();
+        r.serve_url = case["serve"]["url"].as_str().map(|s| s.to_string());
+        if let Some(f) = case["serve"]["file"].as_str() {
+            r.body = Arc::new(e2e::fixture(f));
+        }
+        ctx = ctx.with_resolver(r);
     }
     let kind = case["cancel"]["kind"].as_str().unwrap_or("none").to_string();
     let k = case["cancel"]["k"].as_u64().unwrap_or(0) as usize;
@@ -97,7 +107,12 @@ fn ingredient_summary(b: &Builder) -> Value {
 pub fn run(case: &Value) -> Value {
     let op = case["op"].as_str().unwrap_or("read");
     let format = case["format"].as_str().unwrap_or("image/jpeg").to_string();
-    let asset = e2e::fixture(case["asset"].as_str().expect("asset"));
+    let mut asset = e2e::fixture(case["asset"].as_str().expect("asset"));
+    if case["prep"].as_str() == Some("sign") {
+        let ctx = e2e::context_merged(Some(r#"{"verify":{"verify_after_sign":false},"builder":{"thumbnail":{"enabled":false}}}"#));
+        let signer = e2e::signer("ed25519");
+        asset = e2e::sign(ctx, &e2e::minimal_manifest("c23-prep"), &format, &asset, signer.as_ref()).expect("prep sign");
+    }
     let sh = Shared::default();
     let ctx = make_context(case, &sh, op == "embeddable");
     let kind = case["cancel"]["kind"].as_str().unwrap_or("none");
